@@ -2779,3 +2779,26 @@ package sdf
 //@   use sawtooth_periodic(p.Z + s.lead*math.Atan2(p.Y, p.X)/Tau, s.pitch, -k)
 //@   ensures [inside-outside-unchanged-along-the-helix] s.Evaluate(q) <= 0 <==> s.Evaluate(p) <= 0
 //@ end
+
+// C02, voxel wrapper: Evaluate is the trilinear interpolation of the eight stored corner
+// values of the cell that holds p; at a lattice corner it is the stored value, inside a cell it
+// stays within the range of the cell's corner values.
+//@ func VoxelSDF3.Evaluate
+//@   property C02
+//@   id trilinear-of-the-stored-corners
+//@   requires m.numVoxels.X >= 1 && m.numVoxels.Y >= 1 && m.numVoxels.Z >= 1
+//@   requires m.bb.Min.X < m.bb.Max.X && m.bb.Min.Y < m.bb.Max.Y && m.bb.Min.Z < m.bb.Max.Z
+//@   requires m.bb.Contains(p)
+//@   let lo = min(c000, c001, c010, c011, c100, c101, c110, c111)
+//@   let hi = max(c000, c001, c010, c011, c100, c101, c110, c111)
+//@   assert [cell-size-positive] voxelSize.X > 0 && voxelSize.Y > 0 && voxelSize.Z > 0
+//@   assert [offset-within-the-cell] 0 <= d.X && d.X < 1 && 0 <= d.Y && d.Y < 1 && 0 <= d.Z && d.Z < 1
+//@   assert [first-level] lo <= c00 && c00 <= hi && lo <= c01 && c01 <= hi && lo <= c10 && c10 <= hi && lo <= c11 && c11 <= hi
+//@   assert [second-level] lo <= c0 && c0 <= hi && lo <= c1 && c1 <= hi
+//@   ensures [the-stored-value-at-a-lattice-corner] d.X == 0 && d.Y == 0 && d.Z == 0 ==> r == c000
+//@   ensures [within-the-range-of-the-cell-corners] lo <= r && r <= hi
+//@   ensures [the-corners-are-the-stored-entries-of-the-cell-in-xyz-order] (maphas(m.voxelCorners, voxelStartIndex.Add(v3i.Vec{0, 0, 0})) ==> c000 == mapval(m.voxelCorners, voxelStartIndex.Add(v3i.Vec{0, 0, 0}))) && (maphas(m.voxelCorners, voxelStartIndex.Add(v3i.Vec{0, 0, 1})) ==> c001 == mapval(m.voxelCorners, voxelStartIndex.Add(v3i.Vec{0, 0, 1}))) && (maphas(m.voxelCorners, voxelStartIndex.Add(v3i.Vec{0, 1, 0})) ==> c010 == mapval(m.voxelCorners, voxelStartIndex.Add(v3i.Vec{0, 1, 0}))) && (maphas(m.voxelCorners, voxelStartIndex.Add(v3i.Vec{0, 1, 1})) ==> c011 == mapval(m.voxelCorners, voxelStartIndex.Add(v3i.Vec{0, 1, 1}))) && (maphas(m.voxelCorners, voxelStartIndex.Add(v3i.Vec{1, 0, 0})) ==> c100 == mapval(m.voxelCorners, voxelStartIndex.Add(v3i.Vec{1, 0, 0}))) && (maphas(m.voxelCorners, voxelStartIndex.Add(v3i.Vec{1, 0, 1})) ==> c101 == mapval(m.voxelCorners, voxelStartIndex.Add(v3i.Vec{1, 0, 1}))) && (maphas(m.voxelCorners, voxelStartIndex.Add(v3i.Vec{1, 1, 0})) ==> c110 == mapval(m.voxelCorners, voxelStartIndex.Add(v3i.Vec{1, 1, 0}))) && (maphas(m.voxelCorners, voxelStartIndex.Add(v3i.Vec{1, 1, 1})) ==> c111 == mapval(m.voxelCorners, voxelStartIndex.Add(v3i.Vec{1, 1, 1})))
+//@   ensures [the-cell-index-and-the-offset-locate-p] p.X == m.bb.Min.X + voxelSize.X*(real(voxelStartIndex.X) + d.X) && p.Y == m.bb.Min.Y + voxelSize.Y*(real(voxelStartIndex.Y) + d.Y) && p.Z == m.bb.Min.Z + voxelSize.Z*(real(voxelStartIndex.Z) + d.Z)
+//@   ensures [cell-size-is-the-box-divided-by-the-cell-counts] voxelSize.X*real(m.numVoxels.X) == m.bb.Max.X - m.bb.Min.X && voxelSize.Y*real(m.numVoxels.Y) == m.bb.Max.Y - m.bb.Min.Y && voxelSize.Z*real(m.numVoxels.Z) == m.bb.Max.Z - m.bb.Min.Z
+//@   ensures [trilinear-x-then-y-then-z] r == ((c000*(1-d.X) + c100*d.X)*(1-d.Y) + (c010*(1-d.X) + c110*d.X)*d.Y)*(1-d.Z) + ((c001*(1-d.X) + c101*d.X)*(1-d.Y) + (c011*(1-d.X) + c111*d.X)*d.Y)*d.Z
+//@ end
